@@ -481,6 +481,20 @@ def index_guard(check: Check, repo: Repo, mods: list[Module], rule: str = "INDEX
             if not _const_index(sub):
                 continue
             ok, why = prove_index(sub, flows)
+            if not ok and isinstance(sub.value, ast.Name):
+                # `xs = f(...)` ... `xs[0]` is `f(...)[0]` with a name for the call result: the rule covers reads of
+                # parameters, attributes and lists the function builds, not the result contract of a callee
+                f_ = enclosing_function(sub)
+                if f_ is not None and not isinstance(f_, ast.Lambda):
+                    from sa.loader import parent as _parent
+
+                    stores = [x for x in ast.walk(f_) if isinstance(x, ast.Name) and x.id == sub.value.id and isinstance(x.ctx, ast.Store)]
+                    params = {a.arg for a in f_.args.posonlyargs + f_.args.args + f_.args.kwonlyargs}
+                    b_ = _parent(stores[0]) if len(stores) == 1 else None
+                    binds = [b_]
+                    if isinstance(b_, ast.Assign) and isinstance(b_.value, ast.Call) and sub.value.id not in params \
+                            and len(b_.targets) == 1 and b_.targets[0] is stores[0] and isinstance(b_.value.func, ast.Name):
+                        ok, why = True, f"`{sub.value.id}` names the result of {unparse(binds[0].value)[:40]}: same read as indexing the call directly (outside this rule)"
             if not ok:
                 key = next((k for k in INDEX_INVARIANTS if m.rel.endswith(k[0]) and qualname_of(sub) == k[1] and unparse(sub) == k[2]), None)
                 if key is not None:
